@@ -119,11 +119,15 @@ class InotifyEmitter(EventEmitter):
         self._inotify = InotifyBuffer(
             path, recursive=self.watch.is_recursive, event_mask=event_mask, follow_symlink=self.watch.follow_symlink
         )
+        if not self.should_keep_running():
+            # stop() overtook us while the buffer was being set up and found nothing to close.
+            self.on_thread_stop()
 
     def on_thread_stop(self) -> None:
-        if self._inotify:
-            self._inotify.close()
+        inotify = self._inotify
+        if inotify:
             self._inotify = None
+            inotify.close()
 
     def queue_events(self, timeout: float, *, full_events: bool = False) -> None:
         # If "full_events" is true, then the method will report unmatched move events as separate events
